@@ -100,11 +100,12 @@ C10Clause(ev) ==
       [] OTHER -> "ok"
 C10Attrs(ev) == IF ev.e = "grammar" THEN <<C10Component(Cfg.impl0, ev.impl)>> ELSE <<>>
 
-MB(ev) == IF Cfg.impl0.expd THEN MetaBadX(ev.prog, G) ELSE MetaBad(ev.prog, G)
+\* Cfg.expd: the depth-counting mode the grammar was REQUESTED with (not the flag the Grammar object reports)
+MB(ev) == IF Cfg.expd THEN MetaBadX(ev.prog, G) ELSE MetaBad(ev.prog, G)
 C11Clause(ev) ==
     IF ev.e = "produced" /\ ev.rep # "stack" THEN (IF MB(ev) = <<>> THEN "ok" ELSE "C11:" \o MB(ev)[1])
     ELSE "ok"
-C11Attrs(ev) == IF ev.e = "produced" THEN Tail(MB(ev)) \o <<ev.op, IF Cfg.impl0.expd THEN "expansion-mode" ELSE "default-mode">> ELSE <<>>
+C11Attrs(ev) == IF ev.e = "produced" THEN Tail(MB(ev)) \o <<ev.op, IF Cfg.expd THEN "expansion-mode" ELSE "default-mode">> ELSE <<>>
 
 Clause(ev) == CASE Prop = "C01" -> C01Clause(ev) [] Prop = "C02" -> C02Clause(ev) [] Prop = "C03" -> C03Clause(ev)
                 [] Prop = "C10" -> C10Clause(ev) [] Prop = "C11" -> C11Clause(ev) [] OTHER -> "ok"
